@@ -1,0 +1,44 @@
+//go:build verif
+
+// Read-only accessor for the /verif harness (dvsim: C18, C19). Add-only: nothing here is
+// compiled without the `verif` build tag, and nothing here changes the router.
+
+package dv
+
+import (
+	"github.com/named-data/ndnd/dv/table"
+	"github.com/named-data/ndnd/dv/tlv"
+)
+
+// VerifSnapshot is a consistent copy of a router's tables, taken under the router mutex.
+type VerifSnapshot struct {
+	// RIB entries (all of them, including any entry at infinity)
+	Rib []table.VerifRibEntry
+	// the advertisement the router would serve right now (Rib.Advert())
+	Advert *tlv.Advertisement
+	// neighbour table
+	Neighbors []table.VerifNeighbor
+	// prefix table (all routers, including self)
+	Prefixes []table.VerifPrefixRouter
+	// routes the Fib believes it has registered in the forwarder
+	Fib []table.VerifFibRoute
+	// own advertisement sequence number
+	AdvertSeq uint64
+	// sequence number of the latest prefix-table snapshot
+	SnapshotAt uint64
+}
+
+// VerifSnapshot copies the router's tables under its mutex.
+func (dv *Router) VerifSnapshot() VerifSnapshot {
+	dv.mutex.Lock()
+	defer dv.mutex.Unlock()
+	return VerifSnapshot{
+		Rib:        dv.rib.VerifEntries(),
+		Advert:     dv.rib.Advert(),
+		Neighbors:  dv.neighbors.VerifNeighbors(),
+		Prefixes:   dv.pfx.VerifRouters(),
+		Fib:        dv.fib.VerifRoutes(),
+		AdvertSeq:  dv.advertSyncSeq,
+		SnapshotAt: dv.pfx.VerifSnapshotAt(),
+	}
+}
